@@ -83,12 +83,49 @@ def _sim(desc: dict):
             )
         raise ValueError(comp)
 
+    def make2():
+        """the real metric inside a wrapper with TWO callers (methods a[k], b[k], each driven by its own
+        AdapterTrans = its own transaction) of every way of the metric's method vector"""
+        from amaranth import Elaboratable
+        from transactron import Methods, TModule, def_methods
+
+        metric = make()
+        meth = metric.incr if comp != "HwExpHistogram" else metric.add
+        layout = list(meth[0].layout_in.members.items())
+
+        class TwoCallers(Elaboratable):
+            def __init__(self):
+                self.metric = metric
+                self.a = Methods(len(meth), i=layout)
+                self.b = Methods(len(meth), i=layout)
+
+            def elaborate(self, platform):
+                m = TModule()
+                m.submodules.metric = metric
+                for ms in (self.a, self.b):
+
+                    @def_methods(m, ms)
+                    def _(k, arg):
+                        meth[k](m, arg)
+
+                return m
+
+        return TwoCallers()
+
     try:
-        sim = CompSim(make)
+        sim = CompSim(make2 if desc.get("callers") == 2 else make)
+        if desc.get("callers") == 2:
+            # static priority of the real manager between the two callers of a way: probe one cycle with every caller attempting
+            r = sim.run([{f"{c}[{k}]": 0 for c in "ab" for k in range(desc["ways"])}])[0]
+            sim.prio = [0 if r[("a", k)] is not None else 1 for k in range(desc["ways"])]
     except Exception as e:  # noqa: BLE001 - an exception of the real code is an observation
         sim = e
     _sims[key] = sim
     return sim
+
+
+def _metric(sim, desc):
+    return sim.dut.metric if desc.get("callers") == 2 else sim.dut
 
 
 def tag_shape_info(desc: dict) -> tuple[int, bool]:
@@ -100,7 +137,7 @@ def tag_shape_info(desc: dict) -> tuple[int, bool]:
         vals = _tag_values(desc)
         sh = Shape.cast(range(min(vals), max(vals) + 1))
     else:
-        sh = Shape.cast(sim.dut.tag_shape)
+        sh = Shape.cast(_metric(sim, desc).tag_shape)
     return sh.width, sh.signed
 
 
@@ -117,6 +154,12 @@ def _lst(xs) -> str:
     return ",".join(str(int(x)) for x in xs) if xs else "-"
 
 
+def _attempts(line: str, key: str, two: bool) -> list[list[Optional[int]]]:
+    """per caller, the attempted call per way"""
+    f = _fields(line)
+    return [_opt_list(f[key])] + ([_opt_list(f[key + "2"])] if two else [])
+
+
 def impl(case: Case) -> list[str]:
     desc = case.desc
     sim = _sim(desc)
@@ -124,32 +167,42 @@ def impl(case: Case) -> list[str]:
         return [f"raise {type(sim).__name__}"] * len(case.lines())
     comp = desc["component"]
     ways = desc["ways"]
+    two = desc.get("callers") == 2
+    names = ["a", "b"] if two else ["incr" if comp != "HwExpHistogram" else "add"]
+    key = {"HwCounter": "i", "TaggedCounter": "t", "HwExpHistogram": "s"}[comp]
+    tw = tag_shape_info(desc)[0] if comp == "TaggedCounter" else 0
+
+    def arg(v):
+        if v is None:
+            return None
+        if comp == "HwCounter":
+            return 0 if v else None
+        if comp == "TaggedCounter":
+            return v & ((1 << tw) - 1)
+        return v
+
     ops = []
+    for line in case.ops:
+        att = _attempts(line, key, two)
+        ops.append({f"{nm}[{k}]": arg(att[c][k]) for c, nm in enumerate(names) for k in range(ways)})
     if comp == "HwCounter":
-        for line in case.ops:
-            bits = _opt_list(_fields(line)["i"])
-            ops.append({f"incr[{k}]": (0 if b else None) for k, b in enumerate(bits)})
-        tr = sim.run(ops, extra=lambda d: [d.count.value])
-        return ["ok"] + [f"d={_lst(r[('incr', k)] is not None for k in range(ways))} cnt={r['_extra'][0]}" for r in tr]
-    if comp == "TaggedCounter":
-        tw, _ = tag_shape_info(desc)
-        for line in case.ops:
-            tags = _opt_list(_fields(line)["t"])
-            ops.append({f"incr[{k}]": (None if t is None else t & ((1 << tw) - 1)) for k, t in enumerate(tags)})
-        tr = sim.run(ops, extra=lambda d: [c.value for c in d.counters.values()])
-        oh = int(sim.dut.one_hot)
-        return ["ok"] + [f"d={_lst(r[('incr', k)] is not None for k in range(ways))} oh={oh} c={_lst(r['_extra'])}" for r in tr]
-    if comp == "HwExpHistogram":
-        for line in case.ops:
-            ss = _opt_list(_fields(line)["s"])
-            ops.append({f"add[{k}]": s for k, s in enumerate(ss)})
-        tr = sim.run(ops, extra=lambda d: [d.count.value, d.sum.value, d.min.value, d.max.value] + [b.value for b in d.buckets])
-        out = ["ok"]
-        for r in tr:
-            e = r["_extra"]
-            out.append(f"d={_lst(r[('add', k)] is not None for k in range(ways))} cnt={e[0]} sum={e[1]} min={e[2]} max={e[3]} b={_lst(e[4:])}")
-        return out
-    raise ValueError(comp)
+        regs = lambda d: [_metric(sim, desc).count.value]  # noqa: E731
+    elif comp == "TaggedCounter":
+        regs = lambda d: [c.value for c in _metric(sim, desc).counters.values()]  # noqa: E731
+    else:
+        regs = lambda d: (lambda h: [h.count.value, h.sum.value, h.min.value, h.max.value] + [b.value for b in h.buckets])(_metric(sim, desc))  # noqa: E731
+    tr = sim.run(ops, extra=regs)
+    out = ["ok"]
+    for r in tr:
+        e = r["_extra"]
+        d = " ".join(f"d{'' if c == 0 else c + 1}={_lst(r[(nm, k)] is not None for k in range(ways))}" for c, nm in enumerate(names))
+        if comp == "HwCounter":
+            out.append(f"{d} cnt={e[0]}")
+        elif comp == "TaggedCounter":
+            out.append(f"{d} oh={int(_metric(sim, desc).one_hot)} c={_lst(e)}")
+        else:
+            out.append(f"{d} cnt={e[0]} sum={e[1]} min={e[2]} max={e[3]} b={_lst(e[4:])}")
+    return out
 
 
 # --------------------------------------------------------------------------------------------
@@ -166,25 +219,56 @@ def bucket_of(n: int, x: int) -> int:
     raise AssertionError
 
 
+def _executed(case: Case, k: int, op: str, o: str, key: str):
+    """(failure, executed calls of this cycle as a list of arguments) from attempts and done bits of all callers:
+    a call executes only if attempted; with several callers of one way (exclusive method) at most one executes"""
+    two = case.desc.get("callers") == 2
+    att = _attempts(op, key, two)
+    if key == "i":
+        att = [[1 if x else None for x in a] for a in att]
+    f = _fields(o)
+    done = [_opt_list(f["d"])] + ([_opt_list(f["d2"])] if two else [])
+    calls = []
+    for w in range(case.desc["ways"]):
+        ex = [c for c in range(len(att)) if done[c][w]]
+        for c in ex:
+            if att[c][w] is None:
+                return f"cycle {k}: way {w} caller {c} executed without being attempted", None
+        if not two and (att[0][w] is not None) != bool(done[0][w]):
+            return f"cycle {k}: way {w} attempted {att[0][w]} executed {done[0][w]} (the method cannot block)", None
+        calls.extend(att[c][w] for c in ex)
+    return None, calls
+
+
+def _one_per_way(case: Case, out: list[str]) -> Optional[str]:
+    """two callers of one way of an exclusive method never both execute in a cycle (checked after the counting clauses)"""
+    if case.desc.get("callers") != 2:
+        return None
+    for k, o in enumerate(out[1:]):
+        f = _fields(o)
+        for w, (x, y) in enumerate(zip(_opt_list(f["d"]), _opt_list(f["d2"]))):
+            if x and y:
+                return f"cycle {k}: both callers of way {w} executed in the same cycle"
+    return None
+
+
 def monitor(case: Case, out: list[str]):
     desc = case.desc
     comp = desc["component"]
     if out[0] != "ok":
         return f"{comp}({ {k: v for k, v in desc.items() if k != 'component'} }): construction/elaboration: {out[0]}"
-    ways = desc["ways"]
     if comp == "HwCounter":
         mod = 2 ** desc["w"]
         n = 0
         for k, (op, o) in enumerate(zip(case.ops, out[1:])):
-            att = [int(b or 0) for b in _opt_list(_fields(op)["i"])]
+            fail, calls = _executed(case, k, op, o, "i")
+            if fail:
+                return fail
             f = _fields(o)
-            done = _opt_list(f["d"])
-            if done != att:
-                return f"cycle {k}: attempted incr {att} executed {done}"
             if int(f["cnt"]) != n % mod:
                 return f"cycle {k}: count={f['cnt']} after {n} executed incr calls (mod {mod} = {n % mod})"
-            n += sum(done)
-        return None
+            n += len(calls)
+        return _one_per_way(case, out)
     if comp == "TaggedCounter":
         mod = 2 ** desc["w"]
         vals = _tag_values(desc)
@@ -194,29 +278,27 @@ def monitor(case: Case, out: list[str]):
             return f"tag values {vals} do not fit the tag signal ({'signed' if signed else 'unsigned'} {tw} bits)"
         cnt = {v: 0 for v in vals}
         for k, (op, o) in enumerate(zip(case.ops, out[1:])):
-            tags = _opt_list(_fields(op)["t"])
+            fail, calls = _executed(case, k, op, o, "t")
+            if fail:
+                return fail
             f = _fields(o)
-            done = _opt_list(f["d"])
-            if done != [int(t is not None) for t in tags]:
-                return f"cycle {k}: attempted incr {tags} executed {done}"
             regs = _opt_list(f["c"])
             want = [cnt[v] % mod for v in vals]
             if regs != want:
                 return f"cycle {k}: counters {dict(zip(vals, regs))} but executed calls per tag {cnt} (mod {mod})"
-            for t in tags:
-                if t is not None and t in cnt:
+            for t in calls:
+                if t in cnt:
                     cnt[t] += 1
-        return None
+        return _one_per_way(case, out)
     if comp == "HwExpHistogram":
         n, sw, rw = desc["n"], desc["sw"], desc["rw"]
         mod = 2**rw
         samples: list[int] = []
         for k, (op, o) in enumerate(zip(case.ops, out[1:])):
-            ss = _opt_list(_fields(op)["s"])
+            fail, calls = _executed(case, k, op, o, "s")
+            if fail:
+                return fail
             f = _fields(o)
-            done = _opt_list(f["d"])
-            if done != [int(s is not None) for s in ss]:
-                return f"cycle {k}: attempted add {ss} executed {done}"
             want = {
                 "cnt": len(samples) % mod,
                 "sum": sum(samples) % mod,
@@ -225,14 +307,14 @@ def monitor(case: Case, out: list[str]):
             }
             for key, v in want.items():
                 if int(f[key]) != v:
-                    return f"cycle {k}: {key}={f[key]} but samples so far {samples[-12:]} (n={len(samples)}) give {v}"
+                    return f"cycle {k}: {key}={f[key]} but executed samples so far {samples[-12:]} (n={len(samples)}) give {v}"
             b = [0] * n
             for x in samples:
                 b[bucket_of(n, x)] += 1
             if _opt_list(f["b"]) != [x % mod for x in b]:
                 return f"cycle {k}: buckets={f['b']} but documented ranges give {[x % mod for x in b]} for samples {samples[-12:]} (n={len(samples)})"
-            samples.extend(s for s in ss if s is not None)
-        return None
+            samples.extend(calls)
+        return _one_per_way(case, out)
     raise ValueError(comp)
 
 
@@ -242,12 +324,25 @@ def monitor(case: Case, out: list[str]):
 
 def _cfg(desc: dict) -> str:
     comp = desc["component"]
+    prio = ""
+    if desc.get("callers") == 2:  # which caller the real manager prefers, per way (static priority, probed once)
+        sim = _sim(desc)
+        prio = " prio=" + _lst(getattr(sim, "prio", [0] * desc["ways"]))
     if comp == "HwCounter":
-        return f"cfg kind=counter w={desc['w']} ways={desc['ways']}"
+        return f"cfg kind=counter w={desc['w']} ways={desc['ways']}{prio}"
     if comp == "TaggedCounter":
         tw, _ = tag_shape_info(desc)
-        return f"cfg kind=tagged w={desc['w']} tw={tw} ways={desc['ways']} tags={_lst(_tag_values(desc))}"
-    return f"cfg kind=hist n={desc['n']} sw={desc['sw']} rw={desc['rw']} ways={desc['ways']}"
+        return f"cfg kind=tagged w={desc['w']} tw={tw} ways={desc['ways']} tags={_lst(_tag_values(desc))}{prio}"
+    return f"cfg kind=hist n={desc['n']} sw={desc['sw']} rw={desc['rw']} ways={desc['ways']}{prio}"
+
+
+def _cyc(desc: dict, key: str, one) -> str:
+    """one op line: `one()` draws the attempt of one caller on one way"""
+    ways = desc["ways"]
+    line = f"cyc {key}=" + _opt(one() for _ in range(ways))
+    if desc.get("callers") == 2:
+        line += f" {key}2=" + _opt(one() for _ in range(ways))
+    return line
 
 
 def _opt(xs) -> str:
@@ -255,7 +350,7 @@ def _opt(xs) -> str:
 
 
 def counter_case(desc: dict, rng, n: int, p: float, tag="random") -> Case:
-    ops = ["cyc i=" + _opt(int(rng.random() < p) for _ in range(desc["ways"])) for _ in range(n)]
+    ops = [_cyc(desc, "i", lambda: int(rng.random() < p)) for _ in range(n)]
     return Case(_cfg(desc), ops, desc, tag)
 
 
@@ -270,7 +365,7 @@ def tagged_case(desc: dict, rng, n: int, p: float, tag="random") -> Case:
         # mostly declared tags, sometimes any value of the tag signal (calls that must not count)
         return rng.choice(vals) if rng.random() < 0.75 else rng.randrange(lo, hi)
 
-    ops = ["cyc t=" + _opt(one() for _ in range(desc["ways"])) for _ in range(n)]
+    ops = [_cyc(desc, "t", one) for _ in range(n)]
     return Case(_cfg(desc), ops, desc, tag)
 
 
@@ -288,7 +383,7 @@ def hist_case(desc: dict, rng, n: int, p: float, tag="random") -> Case:
             return min(max(b + rng.choice((-1, 0, 0, 1)), 0), 2**sw - 1)
         return rng.randrange(2**sw)
 
-    ops = ["cyc s=" + _opt(one() for _ in range(desc["ways"])) for _ in range(n)]
+    ops = [_cyc(desc, "s", one) for _ in range(n)]
     return Case(_cfg(desc), ops, desc, tag)
 
 
@@ -375,7 +470,23 @@ def gen_cases(ctx: Check) -> dict[str, list[Case]]:
         hists.append(Case(_cfg(d), dops, d, "directed"))
         for p in (0.4, 0.9):
             hists.append(hist_case(d, rng, n, p))
-    return {"counter": counters, "tagged": tagged, "hist": hists}
+    # ---- two callers per way (two transactions competing for the same exclusive method incr[k] / add[k])
+    multi = []
+    mc = [{"component": "HwCounter", "w": 3, "ways": 1}, {"component": "HwCounter", "w": 4, "ways": 3},
+          {"component": "TaggedCounter", "tagkind": "list", "tags": [1, 2, 4], "w": 3, "ways": 2},
+          {"component": "TaggedCounter", "tagkind": "list", "tags": [-2, 0, 3], "w": 4, "ways": 1},
+          {"component": "HwExpHistogram", "n": 4, "sw": 3, "rw": 4, "ways": 2},
+          {"component": "HwExpHistogram", "n": 1, "sw": 2, "rw": 3, "ways": 1}]
+    if ctx.thorough:
+        mc += [{"component": "HwCounter", "w": w, "ways": ways} for w in (2, 5) for ways in (2, 4)]
+        mc += [{"component": "HwExpHistogram", "n": nb, "sw": 4, "rw": 5, "ways": ways} for nb in (2, 5) for ways in (1, 3)]
+        mc += [{"component": "TaggedCounter", "tagkind": "range", "range": [0, 5], "w": 3, "ways": 3}]
+    for d0 in mc:
+        d = {**d0, "callers": 2}
+        f = {"HwCounter": counter_case, "TaggedCounter": tagged_case, "HwExpHistogram": hist_case}[d["component"]]
+        for p in (0.5, 0.95):
+            multi.append(f(d, rng, n, p))
+    return {"counter": counters, "tagged": tagged, "hist": hists, "multi": multi}
 
 
 def more_cases(case: Case, rng):
@@ -391,6 +502,9 @@ def nontrivial(case: Case, out: list[str]) -> bool:
     if out[0] != "ok":
         return False
     multi = any(sum(x or 0 for x in _opt_list(_fields(o)["d"])) >= 2 for o in out[1:])
+    if case.desc.get("callers") == 2:  # both callers of one way attempt in the same cycle
+        key = {"HwCounter": "i", "TaggedCounter": "t", "HwExpHistogram": "s"}[comp]
+        return any(x and y for op in case.ops for x, y in zip(*_attempts(op, key, True)))
     if comp == "HwCounter":
         cnts = [int(_fields(o)["cnt"]) for o in out[1:]]
         return multi or any(b < a for a, b in zip(cnts, cnts[1:]))
@@ -505,7 +619,9 @@ def run(ctx: Check):
         "cases = (component, configuration, history of per-way calls); configurations: HwCounter (width, ways), "
         "TaggedCounter (tag set as range/Enum/IntEnum/list incl. negative values and one-hot sets, width, ways), "
         "HwExpHistogram (bucket_count >= 1, sample width, register width, ways); non-trivial = a register wraps "
-        "around, or >= 2 ways are called in one cycle, or (tagged) a call carries a tag outside the tag set"
+        "around, or >= 2 ways are called in one cycle, or (tagged) a call carries a tag outside the tag set; "
+        "two-caller cases (a wrapper with two transactions per way of incr/add; the manager grants one): "
+        "non-trivial = both callers of a way attempt in one cycle"
     )
     ctx.proof_stage()
     ctx.replay_findings(replay_witness)
@@ -519,7 +635,7 @@ def run(ctx: Check):
     cases = gen_cases(ctx)
     procs = 1 if ctx.quick else None
     # one driver invocation for the three components (the interpreter's start-up dominates otherwise)
-    allc = cases["counter"] + cases["tagged"] + cases["hist"]
+    allc = cases["counter"] + cases["tagged"] + cases["hist"] + cases["multi"]
     lockstep(ctx, "metrics(hwcounter,taggedcounter,hwexphistogram)", "C31", allc, impl, monitor, more_cases, nontrivial, procs=procs)
     for k, v in cases.items():
         ctx.count(f"configs_{k}", len({c.cfg for c in v}))
